@@ -232,6 +232,7 @@ class Proxy(object):
         current_context.response_annotations = {}
         if self._pyroConnection is None:
             self.__pyroCreateConnection()
+            current_context.response_annotations = {}   # (those of the handshake reply are not this call's)
         serializer = serializers.serializers[self._pyroSerializer or config.SERIALIZER]
         objectId = objectId or self._pyroConnection.objectId
         annotations = current_context.annotations
